@@ -209,6 +209,20 @@ def from_typed_constants(ctx, L, tname):
     ctx.count("typed-from-typed", n)
 
 
+def volume(ctx, L, tname, member, n):
+    """Many distinct values of one named range in one process (a long capture holds thousands of distinct handles)."""
+    m = next(x for x in L.prim(tname)["members"] if x.get("name") == member)
+    lo, hi = m["range"]
+    step = max(1, (hi - lo) // n)
+    k = 0
+    for v in range(lo, hi, step):
+        k += 1
+        if k > n:
+            break
+        check_value(ctx, L, tname, v)
+    ctx.count(f"volume:{tname}.{member}", k)
+
+
 def _apply(f, a, b):
     try:
         return ("ok", f(a, b))
@@ -271,6 +285,22 @@ def run_shard(ctx):
         if any("range" in m for m in L.prim(t).get("members", [])):
             units.append((t, None, "names"))
         units.append((t, None, "random"))
+    vol = [("TPM_HR", "NV_INDEX"), ("TPM_HANDLE", None), ("TPM_HR", "TRANSIENT"), ("TPMI_RH_NV_INDEX", None)]
+    if ctx.shard < len(vol):
+        t, member = vol[ctx.shard]
+        n = 20000 if ctx.quick() else 150000
+        if member is None:
+            # value-set types: walk the NV index range through the type itself
+            lo, hi = 0x01000000, 0x02000000
+            step = (hi - lo) // n
+
+            def loop_vs(t=t):
+                for v in range(lo, hi, step):
+                    check_value(ctx, L, t, v)
+
+            ctx.run_plain(loop_vs, f"volume:{t}")
+        else:
+            ctx.run_plain(lambda: volume(ctx, L, t, member, n), f"volume:{t}")
     for t, vals, mode in ctx.mine(units):
         if mode == "ops":
             ctx.run_plain(lambda: ops_for_type(ctx, L, t), f"ops:{t}")
